@@ -635,7 +635,7 @@ fn directed() -> Vec<(&'static str, Vec<Vec<(usize, usize, &'static str)>>)> {
 }
 
 pub fn run(args: &Args) {
-    let mut sink = Sink::new("C08", &args.out, &["Model.Buffer"], args.seed, &args.tier);
+    let mut sink = Sink::new("C08", &args.out, &["Model.Buffer", "Model.TokResult"], args.seed, &args.tier);
     sink.rule("random originals (0..14 characters over an alphabet of 1/2/3/4-byte characters incl. the extremes of every width; one in five with a special first character: U+FEFF, U+200B, U+00A0, U+3000, a combining mark, NUL, a 4-byte character; every run has directed cases with each of them alone and in front of text, untouched / edited behind it / inserted before it / replaced / deleted, also on a reused buffer and through the tokenizer with and without input-text plugins) x 1..4 successive batches of 1..4 ordered non-overlapping edits on character boundaries (delete / insert / shrink / expand / equal length; at start, middle, end; adjacent) through replace_ref/own/char/char_iter; every byte offset and every character index of the result is queried. Separate stream of malformed batches (unsorted, overlapping, reversed, off-boundary, out of range) compares Ok/Err/panic only. non-trivial = in scope, at least one edit, distinct Coq term. SESSION stream: one InputBuffer object reused for 1..3 texts (reset + new text), every text rewritten by 1..4 batches of which 2/5 are rejected by their closure after it recorded edits (with_editor answers Err); after every batch status, current() and the offset map are compared with the model and with a fresh reference buffer to which only the accepted batches are applied. PIPELINE stream (shared generators with C01): the real tokenizer on generated plugin stacks x dictionaries (display form != key, exact / prefix-only / other-length split declarations) x modes A/B/C x requested field subsets x on-demand split_into x reuse sessions; for every reported morpheme begin_c/end_c = code points of the original before begin/end, slice by code points = slice by bytes = surface");
     let grammar = test_grammar();
     if let Some(p) = &args.replay {
